@@ -151,7 +151,25 @@ class Exec:
     # ---- places
     def loc(self, fid, name): return '%d:%s' % (fid, name)
 
+    def norm(self, env, l, path):
+        """Auto-deref: projecting a field/index out of a reference value goes through the reference
+        (pointers are modelled either transparently or as Ref; MIR's explicit derefs need not match)."""
+        cl, cp = l, ()
+        for comp in path:
+            n = 0
+            while True:
+                try: v = get_at(env[cl], cp)
+                except (KeyError, IndexError, TypeError): break
+                if isinstance(v, Ref) and n < 50: cl, cp = v.local, v.path; n += 1
+                else: break
+            cp = cp + (comp,)
+        return (cl, cp)
+
     def lvalue(self, fid, env, p):
+        l, path = self.lvalue0(fid, env, p)
+        return self.norm(env, l, path)
+
+    def lvalue0(self, fid, env, p):
         p = p.strip()
         if re.fullmatch(r'_\d+', p): return (self.loc(fid, p), ())
         if p.endswith(']') and not p.startswith('['):
@@ -182,16 +200,19 @@ class Exec:
                 if ch in '([{<': depth += 1
                 if ch in ')]}>': depth -= 1
                 if depth == 0 and ch == '.':
-                    mm = re.match(r'\.(\d+): ', inner[i:])
+                    mm = re.match(r'\.(\d+): (.*)$', inner[i:])
                     if mm:
-                        l, path = self.lvalue(fid, env, inner[:i]); return (l, path + (int(mm.group(1)),))
+                        l, path = self.lvalue(fid, env, inner[:i])
+                        ty = mm.group(2)
+                        if ty.startswith(('std::ptr::Unique<', 'std::ptr::NonNull<', 'core::ptr::Unique<', 'core::ptr::NonNull<', '*const ', '*mut ')):
+                            return (l, path)         # Box / Arc internals: the pointer itself
+                        return (l, path + (int(mm.group(1)),))
             if inner.startswith('*'): return self.lvalue(fid, env, inner)
         if p.startswith('*'):
             l, path = self.lvalue(fid, env, p[1:])
-            r = get_at(env[l], path)
-            hops = 0
-            while isinstance(r, Ref) and hops < 1:
-                l, path = r.local, r.path; hops += 1; r = None
+            try: r = get_at(env[l], path)
+            except (KeyError, IndexError, TypeError): r = None
+            if isinstance(r, Ref): return (r.local, r.path)
             return (l, path)           # non-Ref: transparent pointer (Box/Arc/&T modelled as the value itself)
         raise Inconclusive('place ' + p)
 
@@ -234,6 +255,11 @@ class Exec:
             if name in self.consts: return self.consts[name]
             for kk in self.consts:
                 if name.endswith('::' + kk) or kk.endswith('::' + name): return self.consts[kk]
+            mm = re.match(r'(?:core|std)::num::<impl ([ui]\w+)>::(MAX|MIN)$', name) or re.match(r'([ui]\d+|[ui]size)::(MAX|MIN)$', name)
+            if mm and mm.group(1) in WIDTH:
+                wd = WIDTH[mm.group(1)]; signed = mm.group(1).startswith('i')
+                val = ((1 << (wd - 1)) - 1 if signed else (1 << wd) - 1) if mm.group(2) == 'MAX' else ((1 << (wd - 1)) if signed else 0)
+                return bv(val, wd)
             mm = re.match(r'ZeroSized: \{closure@(src/[^}]+)\}$', name)
             if mm: return {'__closure': mm.group(1)}
             if name.startswith('ZeroSized: '): return Opaque('zst ' + name[11:])
@@ -388,6 +414,8 @@ class Exec:
         if key is not None:
             self.used_summaries.add(key)
             env = dict(env)
+            if getattr(self.S[key], 'cps', False):
+                return self.S[key](self, env, pc, vals, cont)
             try: outs = self.S[key](self, env, pc, *vals)
             except Inconclusive: raise
             except Exception as ex:
@@ -544,7 +572,7 @@ class Exec:
                     if isinstance(v, (dict, list, tuple, Enum)) or v is None: return Ref(l, path)
                 except Inconclusive: pass
             return v
-        mm = re.match(r'&(?:mut |raw (?:const|mut) )?(.*)$', rhs)
+        mm = re.match(r'&(?:mut |raw (?:const|mut) (?:\(fake\) )?|fake shallow |fake )?(.*)$', rhs)
         if mm:
             l, path = self.lvalue(fid, env, mm.group(1)); return Ref(l, path)
         mm = re.match(r'\((.*),\)$', rhs)
